@@ -674,7 +674,98 @@ def effective_shard(args):
     return part.done()
 
 
+def runtime_table_problems():
+    """Run-time update of the country table through the library's own ``registry.save``: what is
+    saved REPLACES what was there, and validation, decomposition and generation - also through
+    objects (and copies / pickles of objects) created and used BEFORE the update - follow the
+    table in force at the time of the call."""
+    import pickle
+    probs = []
+    cur = lib.registry.get("iban")
+    gb_text, no_text = "GB29NWBK60161331926819", "NO9386011117947"
+    pre = {}
+    for name, text in (("GB", gb_text), ("NO", no_text)):
+        o = lib.IBAN(text)
+        _ = (o.bank_code, o.branch_code, o.account_code, o.bban.spec, o.spec, o.is_valid)   # used before
+        pre[name] = {"object": o, "deepcopy": copy.deepcopy(o), "pickle": pickle.loads(pickle.dumps(o)),
+                     "copy": copy.copy(o), "bban-deepcopy": copy.deepcopy(o.bban)}
+
+    def table(change):
+        t = {k: dict(v) for k, v in cur.items()}   # entries copied one level: 'regex' objects kept
+        change(t)
+        return t
+
+    def gb_without_branch(t):
+        t["GB"]["positions"] = {k: v for k, v in t["GB"]["positions"].items() if k != "branch_code"}
+
+    def gb_moved(t):
+        t["GB"]["positions"] = dict(t["GB"]["positions"], account_code=[12, 18], branch_code=[4, 12])
+
+    def no_removed_qq_added(t):
+        t["QQ"] = dict(t.pop("NO"))
+    for label, change in (("GB without a branch field", gb_without_branch), ("GB fields moved", gb_moved),
+                          ("NO renamed to QQ", no_removed_qq_added)):
+        new = table(change)
+        with sandbox.iban_table_saved(new):
+            got = lib.registry.get("iban")
+            if strip_regex(got) != strip_regex(new):
+                bad = sorted(k for k in set(got) | set(new) if strip_regex({k: got.get(k, {})}) != strip_regex({k: new.get(k, {})}))[:3]
+                probs.append((f"registry.save does not replace the table [{label}]",
+                              {k: strip_regex({k: new.get(k, {})})[k] for k in bad},
+                              {k: strip_regex({k: got.get(k, {})})[k] for k in bad}))
+                continue
+            if "GB" in label:
+                pos = new["GB"]["positions"]
+                body = gb_text[4:]
+                want = {c: (body[pos[c][0]:pos[c][1]] if c in pos else "") for c in ("bank_code", "branch_code", "account_code")}
+                views = {"fresh": lib.IBAN(gb_text), "fresh-bban": lib.BBAN("GB", body), **pre["GB"]}
+                for vname, o in views.items():
+                    k, v = lib.outcome(lambda: {c: getattr(o, c) for c in want})
+                    if (k, v) != ("ok", want):
+                        probs.append((f"components do not follow the saved table [{label}; {vname} object]", want, (k, v)))
+                k, v = lib.outcome(lambda: str(lib.IBAN.generate("GB", "NWBK", "31926819" if "moved" not in label else "926819",
+                                                                 "601613" if "without" not in label else "")))
+                if "without" in label and k == "ok":
+                    o = lib.IBAN(v)
+                    if o.branch_code != "" or o.bank_code != "NWBK":
+                        probs.append((f"generate does not follow the saved table [{label}]", "no branch field", v))
+            else:
+                for text, cc, ok in ((no_text, "NO", False), ("QQ" + ri.check_digits("QQ", no_text[4:]) + no_text[4:], "QQ", True)):
+                    for how, f in (("IBAN(text)", lambda t=text: lib.IBAN(t)),
+                                   ("from_bban", lambda t=text, cc=cc: lib.IBAN.from_bban(cc, t[4:])),
+                                   ("BBAN(...).bank_code", lambda t=text, cc=cc: lib.BBAN(cc, t[4:]).bank_code)):
+                        k, v = lib.outcome(f)
+                        if how.startswith("BBAN") and not ok:
+                            continue
+                        if (k == "ok") != ok:
+                            probs.append((f"country set does not follow the saved table [{label}; {how}]",
+                                          "accept" if ok else "reject", (cc, k, str(v))))
+                k, v = lib.outcome(lambda: pre["NO"]["object"].is_valid)
+                if (k, v) != ("ok", False):
+                    probs.append((f"object created before the update not judged by the table in force [{label}]",
+                                  False, (k, v)))
+        if strip_regex(lib.registry.get("iban")) != strip_regex(cur):
+            probs.append(("table not restorable after registry.save", "bundled table", label))
+    return probs
+
+
+def runtime_shard(args):
+    part = par.Part()
+    before = sandbox.deep_snapshot()
+    part["evals"] += 40
+    for i in range(40):
+        part.seen.add(hash(("runtime", i)))
+    for sig, exp, obs in runtime_table_problems():
+        part.violation(sig, {"kind": "c18runtime"}, exp, obs)
+    sandbox.assert_restored(before)
+    part.stat("runtime_table_updates", 3)
+    part.sample({"runtime_table_updates": ["GB without a branch field", "GB fields moved", "NO renamed to QQ"]})
+    return part.done()
+
+
 def shard(args):
+    if args[0] == "runtime":
+        return runtime_shard(args)
     if args[0] == "effective":
         return effective_shard(args)
     before = None
@@ -691,6 +782,9 @@ def replay(case: dict) -> dict:
     k = case["kind"]
     if k == "c18effective":
         probs = effective_data_problems() if case["phase"] == "after-import" else []
+        return {"ok": not probs, "observed": [(p[0], p[2]) for p in probs]}
+    if k == "c18runtime":
+        probs = runtime_table_problems()
         return {"ok": not probs, "observed": [(p[0], p[2]) for p in probs]}
     if k == "c18merge":
         l, r = copy.deepcopy(case["left"]), copy.deepcopy(case["right"])
@@ -732,7 +826,8 @@ def main(tier: str) -> int:
     shards += [("bankload", i, min(nv2, i + 12), tier) for i in range(0, nv2, 12)]
     shards += [("e2e", i, tier) for i in range(len(e2e_configs()))]
     shards.append(("effective", tier))
-    shards.sort(key=lambda s: {"e2e": 0, "effective": 0, "ibanload": 1, "bankload": 2, "merge": 3, "merge3": 3}[s[0]])
+    shards.append(("runtime", tier))
+    shards.sort(key=lambda s: {"e2e": 0, "effective": 0, "runtime": 0, "ibanload": 1, "bankload": 2, "merge": 3, "merge3": 3}[s[0]])
     par.run_shards(run, shard, shards)
     run.extra.update({"merge_documents": ndocs, "merge_pairs": ndocs * ndocs, "max_nodes": max_nodes,
                       "overlays": list(OVERLAYS), "overlay_file_names": OVERLAY_NAMES,
